@@ -33,4 +33,11 @@ PROPS = {
         "trusted_base": COMMON_TB + ["modelled: GenericQuoteState, ExpressionQuoteState, CsvQuoteState (Encode/Decode/NextToken); strings.ReplaceAll on a one-rune / two-rune pattern is modelled as the rune-list functions doubleQ / undoubleQ"],
         "assumptions": COMMON_ASSUME,
     },
+    "C16": {
+        "module": "Verif.Props.C16",
+        "rule": "exhaustive: every ordered selection of <= 2 (thorough 3) of the 39 strings of length 1..3 over {<,=,>} registered with distinct token types x inputs of length <= 4 over the same alphabet (quick samples the length-4 inputs), each tree read twice (the D03 pattern); plus random tables of 1..7 symbols of length 1..4 over a wider alphabet incl. non-Latin runes and re-registrations, with inputs built from the registered symbols, each tree read three times. Non-trivial = at least one multi-character symbol and an input of length >= 2.",
+        "explanation": "Theorems: trie invariant build_inv (a path is a node iff it is a non-empty prefix of a registered symbol; valid iff returnable; type = latest registration, Symbol for an implicit first rune); C16_next_is_longest: for every registration list (types != Unknown) and every scanner position with a next character the symbol state returns the longest returnable prefix of the remaining input (else the single next character) with its type, consuming exactly its length; corollaries no_unregistered_prefix, multichar_is_registered, add_monotone, add_keeps_node. The stream compares SymbolRootNode (Add/NextToken on the real trie) with the model and with an independent longest-prefix oracle, and checks repeated reads give the same tokens.",
+        "trusted_base": COMMON_TB + ["modelled: SymbolNode/SymbolRootNode as a finite map path -> (valid, tokenType); the per-node CharReferenceMap of children is abstracted to map lookup (its behaviour is C17); symbol runes are assumed in 1..U+FFFE (Add panics above, drops U+0000 from the text)"],
+        "assumptions": COMMON_ASSUME + ["registered token types differ from Unknown (with Unknown the first-rune node is re-typed by a later registration: shown necessary by the proof, documented in DESIGN.md)"],
+    },
 }
